@@ -408,6 +408,16 @@ func resetStmts(pkg *packages.Package, f *ast.File) []string {
 		for _, sp := range gd.Specs {
 			vs := sp.(*ast.ValueSpec)
 			if len(vs.Values) == 0 {
+				// no initialiser: the variable starts at its zero value (a cache filled lazily, a sync.Once)
+				if vs.Type != nil {
+					var tb bytes.Buffer
+					format.Node(&tb, pkg.Fset, vs.Type)
+					for _, n := range vs.Names {
+						if n.Name != "_" {
+							out = append(out, fmt.Sprintf("{ var verifZero %s; %s = verifZero }", tb.String(), n.Name))
+						}
+					}
+				}
 				continue
 			}
 			var names, vals []string
@@ -478,7 +488,7 @@ func main() {
 			os.Exit(2)
 		}
 		counts := map[string]int{}
-		var resetFuncs, digestFuncs []string
+		var resetFuncs, digestFuncs, initFuncs []string
 		for i, f := range p.Syntax {
 			r := &rewriter{pkg: p, file: f, modes: m, counts: counts}
 			var rs []string
@@ -499,6 +509,16 @@ func main() {
 					}
 				}
 				astutil.AddNamedImport(p.Fset, f, "verifmt", "fmt")
+			}
+			var inits []string
+			if m["reset"] {
+				// init functions are renamed and called from a new init, so that a reset can run them again
+				for _, d := range f.Decls {
+					if fd, ok := d.(*ast.FuncDecl); ok && fd.Recv == nil && fd.Name.Name == "init" {
+						fd.Name = ast.NewIdent(fmt.Sprintf("verifInit%d_%d", i, len(inits)))
+						inits = append(inits, fd.Name.Name)
+					}
+				}
 			}
 			f.Comments = nil
 			astutil.Apply(f, r.pre, r.post)
@@ -523,10 +543,21 @@ func main() {
 					fmt.Fprintf(&b, "\t%s\n", st)
 				}
 				b.WriteString("}\n")
+				if len(inits) > 0 {
+					b.WriteString("\nfunc init() {\n")
+					for _, in := range inits {
+						fmt.Fprintf(&b, "\t%s()\n", in)
+					}
+					b.WriteString("}\n")
+					initFuncs = append(initFuncs, inits...)
+				}
 				resetFuncs = append(resetFuncs, fn)
 				if i == len(p.Syntax)-1 {
 					b.WriteString("\n// VerifResetGlobals re-evaluates the package-level initialisers in source order.\nfunc VerifResetGlobals() {\n")
 					for _, fn := range resetFuncs {
+						fmt.Fprintf(&b, "\t%s()\n", fn)
+					}
+					for _, fn := range initFuncs {
 						fmt.Fprintf(&b, "\t%s()\n", fn)
 					}
 					b.WriteString("}\n")
